@@ -10,5 +10,11 @@ def add_obligations(chk, tier, seed):
     arrays.install(eng)
     initial_mesh_local.install(eng)
     verify_contracts(eng, initial_mesh_local.contracts, chk)
+    # one descent step of refine_msh_bdr (cut at the body of its while loop), with InitialMesh.refine replaced by its contract
+    from contracts import initial_bdr
+    eng2 = common.new_engine(initial_bdr.contracts, "C16")
+    arrays.install(eng2)
+    initial_bdr.install(eng2)
+    verify_contracts(eng2, [c for c in initial_bdr.contracts if c.setup], chk)
     from vlib import smt
     smt.close_pool()
